@@ -16,6 +16,39 @@ open X86Dec Gen.X86
     Checked by the kernel in 53 chunks of 256 positions and lifted to all positions. -/
 theorem table_wf : ∀ pc, okAt pc = true := C16L.table_ok
 
+/-- `table_wf` alone would also hold of an empty certificate (`okAt` is `true` where no claim is made).  This is the non-vacuous
+    form: the entry point pc = 1 **does** carry a certificate (rank below the decode-loop fuel), and the certified positions are
+    closed under the program's edges — every certified position fetches inside the table and satisfies `instrOK`, which demands a
+    certificate of strictly smaller rank at each of its successors.  So the certified set contains every position the interpreter
+    can reach, and the claims of `table_wf` are about all of them. -/
+theorem table_cert_closed :
+    (∃ c, cert? 1 = some c ∧ c.rank < fuel0 ∧ c.immcw = 0 ∧ c.cons = false) ∧
+    (∀ pc c, cert? pc = some c → ∃ i, fetch pc = some i ∧ instrOK c i = true) ∧
+    (∀ (c : Cert) (dn rd : Nat) (cs pz : Bool) (np pc' : Nat), edgeOK c dn rd cs pz np pc' = true →
+      ∃ c', cert? pc' = some c' ∧ c'.rank < c.rank) := by
+  refine ⟨?_, ?_, ?_⟩
+  · have he := C16L.entryOK2_true
+    unfold C16L.entryOK2 at he
+    cases hc : cert? 1 with
+    | none => rw [hc] at he; cases he
+    | some c =>
+      rw [hc] at he
+      simp only [Bool.and_eq_true, decide_eq_true_eq, Bool.not_eq_true'] at he
+      exact ⟨c, rfl, he.1.1.1.1, he.1.1.2, he.1.2⟩
+  · intro pc c hc
+    have hok := C16L.table_ok pc
+    unfold okAt at hok
+    rw [hc] at hok
+    cases hf : fetch pc with
+    | none => rw [hf] at hok; cases hok
+    | some i => rw [hf] at hok; exact ⟨i, rfl, hok⟩
+  · intro c dn rd cs pz np pc' h
+    obtain ⟨c', h1, h2, _⟩ := C16L.edgeOK_elim h
+    exact ⟨c', h1, h2⟩
+
+/-- the certificate is not empty: the entry is certified -/
+example : (cert? 1).isSome = true := by decide +kernel
+
 /-- Clause "never panics": no Go index-out-of-range (`decoder[pc]`, `src[pos]`, `inst.Args[narg]`, `inst.Prefix[pos]`,
     `fixedArg[x]`, `baseReg[x]`, `memBytes[x]`) on any input, and the fuel of the model's decode loop (16 > longest path of the
     acyclic table program) is never exhausted, i.e. the loop terminates. -/
@@ -39,6 +72,17 @@ theorem err_len_le (src : Bytes) : (decode src).len ≤ src.length ∧ (decode s
   have t := C16L.take_len src
   have := g.len_le
   omega
+
+/-- What "success" means for the prefix-only pseudo instruction.  `Decode` returns `err == nil` with `Op == 0` (decode.go:171
+    `instPrefix`) for a truncated, over-long or invalid-after-prefix input; that is **not** an instruction boundary.  It is always
+    recognisable: `Len = 1`, no PC-relative field and numeric `Opcode = 0` — exactly the test the consumers apply
+    (`func_amd64.go:43`, `:101 ins.Opcode == 0`, `fix_addr_amd64.go:63`).  Conversely a result with `Op ≠ 0` is a table match. -/
+theorem prefix_only_shape (src : Bytes) (hok : (decode src).err = .ok) (h0 : (decode src).op = 0) :
+    (decode src).len = 1 ∧ (decode src).pcrel = 0 ∧ (decode src).opcode = 0 :=
+  (C16L.decode_good src).op0 hok h0
+
+/-- satisfiable: a cut `MOV` (`48 8b`) and fifteen `66` prefixes are such pseudo instructions; `90` is not -/
+example : (decode [0x48#8, 0x8b]).err = .ok ∧ (decode [0x48#8, 0x8b]).op = 0 ∧ (decode [0x90#8]).op ≠ 0 := by decide +kernel
 
 /-- Clause "always places its PC-relative field inside the instruction": a non-zero `PCRel` is a width of 1, 2 or 4 bytes,
     starts after the first byte and ends inside `Len`. -/
